@@ -213,8 +213,30 @@ pub fn dispatch_impl(toks: &[&str]) -> Option<String> {
     }
 }
 
+/// C01: every decoder returns a value (no error from an in-memory buffer, no panic — a panic is
+/// caught by the harness main loop and printed as PANIC), re-encoding completes and yields text.
+pub fn prop_total(bytes: &[u8]) -> String {
+    for (name, d) in dec9(bytes) {
+        if !d.starts_with("ok") {
+            return format!("FAIL {name}: {}", &d[..d.len().min(80)]);
+        }
+    }
+    let mut m = rosu_map::from_bytes::<Beatmap>(bytes).unwrap();
+    match m.encode_to_string() {
+        Ok(t) => {
+            // the text is a `String`, hence valid UTF-8; it must also decode again without error
+            match rosu_map::from_bytes::<Beatmap>(t.as_bytes()) {
+                Ok(_) => format!("OK len={}", t.len()),
+                Err(e) => format!("FAIL re-decode of the encoding: {}", kind_tag(e.kind())),
+            }
+        }
+        Err(e) => format!("FAIL encode: {}", kind_tag(e.kind())),
+    }
+}
+
 pub fn dispatch_prop(toks: &[&str]) -> Option<String> {
     match toks {
+        ["total", hex] => Some(prop_total(&unhex(hex))),
         ["dec9", hex] => Some(prop_dec9(&unhex(hex))),
         ["c06", hexes @ ..] => Some(prop_c06(&crate::sections::lines_of(hexes))),
         _ => None,
